@@ -102,28 +102,39 @@ func (t *TransientData) RemoveListener(listener TransientListener) {
 	delete(t.listeners, listener)
 }
 
+// stopTimer stops and forgets the expiry timer of the given key (if any).
+func (t *TransientData) stopTimer(key string) {
+	if old, found := t.timers[key]; found {
+		old.Stop()
+		delete(t.timers, key)
+	}
+}
+
 func (t *TransientData) updateTTL(key string, value interface{}, ttl time.Duration) {
 	if ttl <= 0 {
-		delete(t.timers, key)
+		t.stopTimer(key)
 	} else {
 		t.removeAfterTTL(key, value, ttl)
 	}
 }
 
 func (t *TransientData) removeAfterTTL(key string, value interface{}, ttl time.Duration) {
+	// The latest request governs the expiry, a timer of a previous request
+	// must not remove the value set now.
+	t.stopTimer(key)
 	if ttl <= 0 {
 		return
 	}
 
-	if old, found := t.timers[key]; found {
-		old.Stop()
-	}
-
-	timer := time.AfterFunc(ttl, func() {
+	var timer *time.Timer
+	timer = time.AfterFunc(ttl, func() {
 		t.mu.Lock()
 		defer t.mu.Unlock()
 
-		t.compareAndRemove(key, value)
+		// Only expire if no later request replaced this timer in the meantime.
+		if t.timers[key] == timer {
+			t.compareAndRemove(key, value)
+		}
 		if t.ttlCh != nil {
 			select {
 			case t.ttlCh <- struct{}{}:
